@@ -111,7 +111,8 @@ def run(ctx):
     harness = common.build_harness("c18_harness")
     driver = common.build_driver("C18")
 
-    nseq, maxops = (50000, 40) if ctx.tier == "quick" else (1000000, 40)
+    # thorough: 500,000 sequences (about 17 minutes on 16 cores; 10^6 would exceed the 20-minute budget)
+    nseq, maxops = (50000, 40) if ctx.tier == "quick" else (500000, 40)
     if os.environ.get("C18_NSEQ"):
         nseq = int(os.environ["C18_NSEQ"])
     cases = []
